@@ -354,6 +354,7 @@ class DNASpec(symbolic.Object):
   def from_json(cls, json_value, *args, **kwargs) -> symbolic.Object:
     """Override from_json for backward compatibility with serialized data."""
     assert isinstance(json_value, dict)
+    json_value = dict(json_value)
     json_value.pop('userdata', None)
     return super().from_json(json_value, *args, **kwargs)
 
@@ -1458,6 +1459,7 @@ class DNA(symbolic.Object):
     Returns:
       A DNA object.
     """
+    json_value = dict(json_value)
     cloneable_metadata_keys = json_value.pop('_cloneable_metadata_keys', None)
     if json_value.get('format', None) == 'compact':
       # NOTE(daiyip): DNA.parse will validate the input. Therefore, we can
